@@ -18,7 +18,8 @@ RULE = ("cases are (function, double x); non-trivial = x lies in a specially tre
 ASSUMPTIONS = [
     "relative accuracy tau is read as the mixed forward-backward criterion: v accepted iff within tau of the "
     "hull of f over [x(1-tau), x(1+tau)] (differs from pointwise accuracy only within tau of a zero of f and "
-    "for Cl2 at |x|>>1, where the problem is ill-conditioned at level tau)",
+    "for Cl2 at |x|>>1, where the problem is ill-conditioned at level tau; the hull includes the extrema of Cl2 "
+    "inside the interval); a value within two spacings of doubles of the reference is accepted (subnormal results)",
     "reference: mpmath closed forms at 120 digits, validated against /repo/test/data tables and quadrature "
     "of the integral definitions (oracle_mp.selftest)",
     "arguments in (-2.2e-15, 1e-14) \\ {0} are outside the stated domain and are not generated",
@@ -42,6 +43,7 @@ AT_ONE = {"F1C": 1.0, "F2C": 1.0, "F3C": 1.0, "F4C": 1.0, "F1N": 1.0, "F2N": 1.0
 WINDOW = {"F1C": 0.03, "F2C": 0.03, "F3C": 0.03, "F4C": 0.03, "F1N": 0.03, "F2N": 0.04,
           "F3N": 0.03, "F4N": 0.03, "G3": 0.01, "G4": 0.01}
 PSFAM = ["f_PS", "f_S", "f_sferm", "F1", "F1t", "F2", "F3"]
+ASYM = ["f_S", "f_sferm", "f_CSl", "F1", "F2", "F3"]     # asymptotic branch for arguments above 1e2
 
 
 def edges_of(f):
@@ -52,7 +54,7 @@ def edges_of(f):
         e += [1 - 2 * w, (1 + w) / (1 - w)]
     if f in PSFAM:
         e += [2.220446049250313e-16, 0.25]
-    if f in ("f_S", "F3"):
+    if f in ASYM:
         e += [1e2]
     if f == "Li2":
         e += [-1.0, 0.5, 1.0, 2.0]
@@ -96,6 +98,8 @@ def value_case(draw):
         modes += ["edge", "edge", "edgeulp"]
     if f in PSFAM:
         modes += ["nearq", "big"]
+    if f in ASYM:
+        modes += ["asym", "asym"]
     if f in SPECIAL:
         modes = ["sym", "sym", "edge", "edge", "edgeulp", "small", "huge"]
     mode = draw(st.sampled_from(modes))
@@ -115,6 +119,9 @@ def value_case(draw):
         x = draw(near(0.25, -16.0, -1.0))
     elif mode == "big":
         x = draw(logu(1e1, 1e12))
+    elif mode == "asym":
+        # first decade and a half of the asymptotic branch, where a wrong series coefficient is largest
+        x = 1e2 * draw(logu(1.0, 30.0))
     elif mode == "sym":
         x = draw(logu(1e-14, 1e12)) * draw(st.sampled_from([-1.0, 1.0]))
         if f == "Cl2" and draw(st.booleans()):
@@ -174,7 +181,18 @@ def hull(f, x, tau):
     if f in LOOP:
         pts = [p for p in pts if p > 0] or [xm]
     vals = [ref(p) for p in pts]
-    return min(vals), max(vals), ref(xm)
+    lo, hi = min(vals), max(vals)
+    if f == "Cl2":
+        # for |x| >> 1 the interval is wider than the sampling can resolve: include the extrema of Cl2
+        # (maximum at pi/3 + 2 pi k, minimum at -pi/3 + 2 pi k) that lie inside it
+        a, b = min(pts), max(pts)
+        for c, sgn in ((mp.pi / 3, 1), (-mp.pi / 3, -1)):
+            k = mp.ceil((a - c) / (2 * mp.pi))
+            if c + 2 * mp.pi * k <= b:
+                ext = ref(mp.pi / 3)
+                hi = max(hi, ext) if sgn > 0 else hi
+                lo = min(lo, -ext) if sgn < 0 else lo
+    return lo, hi, ref(xm)
 
 
 def accept(f, x, v):
@@ -188,6 +206,8 @@ def accept(f, x, v):
     vm = om.M(v)
     if lo - slack <= vm <= hi + slack:
         return None
+    if abs(vm - fx) <= 2 * math.ulp(float(fx)):
+        return None          # correctly rounded up to the spacing of doubles (matters only for subnormal results)
     err = abs(vm - fx) / abs(fx) if fx != 0 else mp.inf
     return "value %r differs from reference %s (rel. error %s, tau %g)" % (
         v, mp.nstr(fx, 17), mp.nstr(err, 3), tau)
